@@ -930,9 +930,46 @@ class SymStr(str):
             terms.append(z3.If(hit, z3.RealVal(1), z3.RealVal(0)))
         return SymNum(z3.Sum(*terms) if len(terms) > 1 else (terms[0] if terms else z3.RealVal(0)), 'i')
 
+    def _strip(self, chars, left, right):
+        """strip()/lstrip()/rstrip(): the result is a fresh string r with  self == l ++ r ++ t,  l and t made only
+        of the stripped characters (t / l empty for the one-sided forms) and r not starting / ending with one -
+        a total, unique definition, so assuming it constrains nothing else"""
+        if chars is None:
+            cs = ' \t\n\r\x0b\x0c'
+        elif isinstance(chars, SymStr) or not isinstance(chars, str) or not chars:
+            raise Inconclusive("strip() with a symbolic / empty character set")
+        else:
+            cs = chars
+        one = z3.Union(*[z3.Re(z3.StringVal(c)) for c in cs]) if len(cs) > 1 else z3.Re(z3.StringVal(cs))
+        many = z3.Star(one)
+        n = CTX._stripn = getattr(CTX, '_stripn', 0) + 1
+        l, r, t = z3.String('strip.l!%d' % n), z3.String('strip.r!%d' % n), z3.String('strip.t!%d' % n)
+        empty = z3.StringVal('')
+        cons = [self.e == z3.Concat(l, r, t),
+                z3.InRe(l, many) if left else l == empty,
+                z3.InRe(t, many) if right else t == empty]
+        first = z3.SubString(r, z3.IntVal(0), z3.IntVal(1))
+        last = z3.SubString(r, z3.Length(r) - 1, z3.IntVal(1))
+        if left:
+            cons.append(z3.Or(r == empty, z3.Not(z3.InRe(first, one))))
+        if right:
+            cons.append(z3.Or(r == empty, z3.Not(z3.InRe(last, one))))
+        for c in cons:
+            CTX.assume(c)
+        return SymStr(r)
+
+    def strip(self, chars=None):
+        return self._strip(chars, True, True)
+
+    def lstrip(self, chars=None):
+        return self._strip(chars, True, False)
+
+    def rstrip(self, chars=None):
+        return self._strip(chars, False, True)
+
     def _no(self, *a, **k):
         raise Inconclusive("unsupported str method on a symbolic string")
-    strip = lstrip = rstrip = rsplit = replace = join = encode = find = index = title = capitalize = _no
+    rsplit = replace = join = encode = find = index = title = capitalize = _no
     isdigit = isalpha = isalnum = isspace = partition = splitlines = zfill = casefold = _no
     __getitem__ = __iter__ = __mul__ = __rmul__ = __lt__ = __le__ = __gt__ = __ge__ = _no
 
